@@ -384,7 +384,7 @@ func runOW(sh *shard, c *owCase, expLine string, sum *sumT) {
 		}
 		return &dev.Request{Value: fmt.Sprintf("%s|0|pn%d", token, nid)}
 	}
-	ctx, cancel := context.WithCancel(context.Background())
+	ctx, cancel := newCancelCtx(c.id%2 == 1)
 	defer cancel()
 	if c.preCancel {
 		cancel()
